@@ -99,9 +99,11 @@ def _shuffled(y, rng):
     return y.iloc[idx]
 
 
-Y_MALFORMS = ["y_unsorted", "y_decreasing_range", "y_empty", "y_frame", "y_ndarray", "y_list"]
+Y_MALFORMS = ["y_unsorted", "y_decreasing_range", "y_empty", "y_frame", "y_frame_one_column",
+              "y_ndarray", "y_list"]
 X_MALFORMS = ["X_shifted", "X_shorter", "X_unsorted", "X_ndarray"]
 FH_MALFORMS = ["fh_dup", "fh_dup_array", "fh_dup_index", "fh_empty", "fh_empty_index",
+               "fh_empty_object",
                "fh_frac_list", "fh_frac_array", "fh_frac_scalar", "fh_str", "fh_dict", "fh_nested"]
 INT_MALFORMS = ["zero", "negative", "fractional", "string", "bool"]
 
@@ -116,6 +118,8 @@ def malform_y(kind, y, rng):
         return y.iloc[:0]
     if kind == "y_frame":
         return pd.DataFrame({"a": y, "b": y * 2})
+    if kind == "y_frame_one_column":
+        return pd.DataFrame({"a": y})   # still a DataFrame: 'multivariate or array-typed target'
     if kind == "y_ndarray":
         return y.to_numpy()
     if kind == "y_list":
@@ -146,6 +150,9 @@ def malform_fh(kind, steps):
         return pd.Index([steps[0]] + list(steps), dtype=np.int64)
     if kind == "fh_empty_index":
         return pd.Index([], dtype=np.int64)
+    if kind == "fh_empty_object":
+        from sktime.forecasting.base import ForecastingHorizon
+        return ForecastingHorizon(pd.Index([], dtype=np.int64))
     if kind == "fh_empty":
         return []
     if kind == "fh_frac_list":
@@ -327,7 +334,8 @@ def _register_fh_cells():
             from sktime.forecasting.base import ForecastingHorizon
             bad = malform_fh(m, ctx.steps)
             return dict(control=lambda: ForecastingHorizon(list(ctx.steps)),
-                        faulty=lambda: _use_fh(ForecastingHorizon(bad), ctx), sig={})
+                        faulty=lambda: _use_fh(bad if isinstance(bad, ForecastingHorizon)
+                                               else ForecastingHorizon(bad), ctx), sig={})
         cell("fh_ctor/" + m, "malformed_fh", "entry_fh")(ctor_cell)
 
         def fit_cell(ctx, m=m):
